@@ -188,7 +188,79 @@ def run(ctx, rep):
         ok = len(cs) == 1 and (cs[0].res or "").startswith("<gc::Gc<T> as core::clone::Clone>")
     rep.ob("C08.identity-test", "copying an object reference copies the identity pointer (Gc::clone), not the token", "ok" if ok else "violated",
            "", oc.span, fn=oc.path)
+    no_view_stored(F, rep, ctx)
     # bin_op dispatches `is` to runtime_addr_check
     bo = need(F, "bytecode::instruction::implementations::bin_op")
     rep.ob("C08.identity-test", "bin_op dispatches to runtime_addr_check", "ok" if bo.calls_to("bytecode::variables::primitive::Primitive::runtime_addr_check") else "violated",
            "", bo.span, fn=bo.path)
+
+
+def no_view_stored(F, rep, ctx):
+    """A field / element *view* (Primitive::HeapPrimitive) denotes a storage cell, not a value.  Whatever an instruction handler
+    stores into a variable cell must have been copied out of such a view first (move_out_of_heap_primitive), or a binding made
+    from `obj.field` keeps following the field after it is re-assigned (identity and aliasing break)."""
+    import opcodes
+    STORES = {
+        "bytecode::context::Ctx::register_variable": 2, "bytecode::context::Ctx::register_variable_local": 2,
+        "bytecode::context::Ctx::update_callback_variable": 2, "bytecode::stack::PrimitiveFlagsPair::new": 0,
+        "bytecode::stack::PrimitiveFlagsPair::set_primitive": 1, "bytecode::variables::primitive::HeapPrimitive::set": 1,
+        "bytecode::context::Ctx::ref_variable": None,
+    }
+    SAFE = ("bytecode::variables::primitive::Primitive::move_out_of_heap_primitive", "bytecode::stack::PrimitiveFlagsPair::primitive",
+            "core::ops::arith::Add::add", "core::ops::arith::Sub::sub", "core::ops::arith::Mul::mul", "core::ops::arith::Div::div",
+            "core::ops::arith::Rem::rem", "bytecode::variables::primitive::HeapPrimitive::to_owned_primitive")
+    T = rules.TRANSPARENT | {rules.TRY_BRANCH, "core::option::Option::unwrap", "core::option::Option::expect", "anyhow::Context::context",
+                            "anyhow::Context::with_context"}
+    emitted = {name for f, name, span, c in opcodes.instruction_literals(ctx.facts("default", ["bytecode", "compiler"]))}
+    n = 0
+    for f in F.crates["bytecode"].fns:
+        if not f.path.startswith("bytecode::instruction::implementations::"):
+            continue
+        handler = f.path.split("::")[-1].split("{")[0]
+        for c in f.calls():
+            for pat, idx in STORES.items():
+                if idx is None or not c.matches(pat):
+                    continue
+                n += 1
+                l = op_local(c.args[idx])
+                by = {x.bb: x for x in f.calls()}
+                oc = rules.origins(f, l, transparent=T) if l is not None else set()
+                srcs = [by[o[1]] for o in oc if o[0] == "call"]
+                others = [o for o in oc if o[0] not in ("call", "const")]
+                unsafe = [x for x in srcs if not x.matches(SAFE)]
+                key = "C08.no-view-stored|%s|%s" % (mir.short(f.path), mir.short(pat))
+                inst = "%s stores a value that was copied out of any field/element view" % mir.short(f.path)
+                if not unsafe and not others:
+                    rep.ob("C08.no-view-stored", inst, "ok", "", c.span, fn=f.path, key=key)
+                    continue
+                base = f.path.split("::{")[0].split("::")[-1]
+                if base not in emitted:
+                    rep.ob("C08.no-view-stored", inst, "exempt", "the compiler never emits `%s` (checked against the instruction! literals on this run)" % base,
+                           c.span, fn=f.path, key=key)
+                    continue
+                if base == "ptr_mut":
+                    # emission protocol: Reassignment::compile loads the value from a temporary written by `store` (which copies out)
+                    rc = [g for g in F_all(ctx).find("compiler::ast::Compile::compile") if "reassignment::Reassignment as " in g.path]
+                    lits = []
+                    if rc:
+                        lits = [nm for ff, nm, sp, cc in opcodes.instruction_literals(F_all(ctx)) if ff is rc[0]]
+                    ok = lits[:1] == ["store"] and "load_fast" in lits and lits.index("load_fast") < lits.index("ptr_mut") if "ptr_mut" in lits else False
+                    only = [ff.path for ff, nm, sp, cc in opcodes.instruction_literals(F_all(ctx)) if nm == "ptr_mut"]
+                    ok = ok and len(only) == 1
+                    rep.ob("C08.no-view-stored", inst, "ok" if ok else "violated",
+                           "ptr_mut takes the value as popped; the only emitter (Reassignment::compile) must load it from a temporary written by `store`: %s" % lits,
+                           c.span, fn=f.path, key=key)
+                    continue
+                rep.ob("C08.no-view-stored", inst, "violated",
+                       "the stored value can come straight from %s without move_out_of_heap_primitive: a view of a field/element cell would be bound "
+                       "to the variable" % sorted({mir.short(x.callee()) for x in unsafe} | {str(o) for o in others}), c.span, fn=f.path, key=key)
+    rep.floor("C08.no-view-stored store sites in handlers", n, 8)
+
+
+_FALL = {}
+
+
+def F_all(ctx):
+    if "f" not in _FALL:
+        _FALL["f"] = ctx.facts("default", ["bytecode", "compiler"])
+    return _FALL["f"]
